@@ -34,12 +34,12 @@ POOL = [
     ("one", 0x31), ("two", 0x32), ("one-ar", 0x661), ("period", 0x2E), ("comma", 0x2C), ("hyphen", 0x2D), ("space", 0x20),
     ("comma-ar", 0x60C), ("tatweel", 0x640), ("danda", 0x964), ("udatta", 0x951), ("percent-ar", 0x66A),
     ("acutecomb", 0x301), ("gravecomb", 0x300), ("fatha-ar", 0x64E), ("anusvara-deva", 0x902),
-    ("u1", None), ("u2", None), ("a.alt", None), ("alef-ar.fina", None), ("V.alt", None),
+    ("u1", None), ("u2", None), ("a.alt", None), ("alef-ar.fina", None), ("V.alt", None), ("period.alt", None),
     ("ayb-arm", 0x531), ("ben-arm", 0x532), ("thaa", 0x780), ("Beta", 0x392), ("alpha-gr", 0x3B1), ("ka-geor", 0x10D9),
 ]
 POOLD = dict(POOL)
 MARKS = {"acutecomb", "gravecomb", "fatha-ar", "anusvara-deva", "udatta"}
-ALTS = {"a.alt": "a", "alef-ar.fina": "alef-ar", "V.alt": "V"}
+ALTS = {"a.alt": "a", "alef-ar.fina": "alef-ar", "V.alt": "V", "period.alt": "period"}  # incl. an alternate reachable only from a script- and direction-neutral glyph
 TAGS = ["latn", "cyrl", "arab", "hebr", "dev2", "deva", "grek", "kana", "armn", "thaa"]
 
 
